@@ -14,8 +14,6 @@ REQUIRED_BRANCHES = [
     "fork:snap", "fork:seg", "fork:orphan", "fork:acked", "fork:twofault", "fork-depth:1", "fork-depth:2",
     "img-depth:0", "img-depth:1", "img-depth:2",
     "twofault:epoch-reissued", "twofault:reissued-shorter-than-torn-file",
-    # the skipped in-memory merge (persistlib skipmerge): crash images right after the snapshot that follows it
-    "skipmerge:in-memory-merge-skipped", "skipmerge:crash-image-after-skipped-merge-snapshot", "imerge-skipped",
 ]
 ASSUMPTIONS = [
     "PersistExact = Event.exact (C13): a Directory.Persist that returned nil left exactly the bytes written, complete and synced; evaluated on every real Persist (file read back and compared) -> bad:assumption-persist-exact; without it durability fails (theorem two_fault_needs_exact, reproduced on the real code when the truncation in FileSystemDirectory.Persist is removed)",
